@@ -84,7 +84,7 @@ func c04Gen(rng *rand.Rand, m *model.Model, keys []string) []string {
 	case 25, 26, 27:
 		a := []string{"HRANDFIELD", k}
 		if rng.Intn(4) > 0 {
-			a = append(a, pick(rng, []string{"0", "1", strconv.Itoa(n - 1), strconv.Itoa(n), strconv.Itoa(n + 5), "-1", strconv.Itoa(-n - 5), "x", "-3", "-9223372036854775808"}))
+			a = append(a, pick(rng, []string{"0", "1", strconv.Itoa(n - 1), strconv.Itoa(n), strconv.Itoa(n + 5), "-1", strconv.Itoa(-n - 5), "x", "-3", "-9223372036854775808", "9223372036854775807", "4611686018427387904", "2147483648"}))
 			if rng.Intn(2) == 0 {
 				a = append(a, randCase(rng, "WITHVALUES"))
 			}
